@@ -147,12 +147,12 @@ Lemma cinv_set_oracle g orc l : CInv g l -> CInv (set_oracle g orc) l.
 Proof. unfold CInv, set_oracle, upd_q, pv, qm. fld. auto. Qed.
 
 (* consumer: load of write_position (sites 41 and 44), possibly stale; acquire *)
-Lemma pop_load_wp_inv g l lp r g' l' e :
+Lemma pop_load_wp_inv site g l lp r g' l' e :
   GInv g -> PInv g lp ->
   acqW l = seenW l -> seenW l <= qwp g -> seenR l <= qrp g -> seenR l <= acqW l ->
   (forall v, seenR l < v -> v <= qrp g -> v + qcap g <= pv g v) ->
   r = seenR l ->
-  pop_load_wp oq_ords_sync g l r = (g', l', e) ->
+  pop_load_wp oq_ords_sync site g l r = (g', l', e) ->
   GInv g' /\ PInv g' lp /\ CInv g' l'.
 Proof.
   intros HG HP A B C D F -> Est. unfold pop_load_wp, next_choice in Est.
@@ -160,10 +160,12 @@ Proof.
   pose proof (stale_bounds (qwp g) (seenW l) kk B) as (S1 & S2).
   set (w := stale (qwp g) (seenW l) kk) in *.
   assert (Est' : (if seenR l =? w
-                  then (set_oracle g (tl (qoracle g)), set_q l (qprog l) QIdle (seenR l) w (N.max (acqW l) w) (acqR l), [ERet 0])
+                  then (set_oracle g (tl (qoracle g)), set_q l (qprog l) QIdle (seenR l) w (N.max (acqW l) w) (acqR l),
+                        [EAcc site B_WP 0 KLoad Acquire Acquire w 0 true; ERet 0])
                   else (upd_q g (qwp g) (qrp g) (qslots g) (tl (qoracle g)) (race_used g) (race_spec g) (qovf g) (Some (seenR l))
                               (cum g) (qpushed g) (qremoved g),
-                        set_q l (qprog l) (QPopRead (seenR l)) (seenR l) w (N.max (acqW l) w) (acqR l), [])) = (g', l', e)).
+                        set_q l (qprog l) (QPopRead (seenR l)) (seenR l) w (N.max (acqW l) w) (acqR l),
+                        [EAcc site B_WP 0 KLoad Acquire Acquire w 0 true])) = (g', l', e)).
   { subst kk w. destruct (qoracle g) as [|k orc]; cbn [tl] in *;
     cbn [q_pop_load_wp q_push_store_wp oq_ords_sync is_acq is_rel andb] in Est; exact Est. }
   clear Est.
@@ -338,9 +340,9 @@ Proof.
     unfold PInv; fld. repeat split; auto.
   - (* PopLoadWp *)
     subst t. pose proof HC as (A & B & C & D & F & G). rewrite Epc in G.
-    destruct (pop_load_wp oq_ords_sync g (ls 1%nat) r) as [[g1 l1] e1] eqn:Eplw.
+    destruct (pop_load_wp oq_ords_sync _ g (ls 1%nat) r) as [[g1 l1] e1] eqn:Eplw.
     inversion Est; subst g' l' e'; clear Est.
-    destruct (pop_load_wp_inv g (ls 1%nat) (ls 0%nat) r g1 l1 e1 HG HP A B C D F G Eplw) as (X & Y & Z).
+    destruct (pop_load_wp_inv _ g (ls 1%nat) (ls 0%nat) r g1 l1 e1 HG HP A B C D F G Eplw) as (X & Y & Z).
     rewrite upd_l_same; rewrite upd_l_other by discriminate.
     split_inv; auto. apply others_kept; auto.
   - (* PopRead: the slot read; fresh *)
@@ -399,9 +401,9 @@ Proof.
         intros v0 Hv1 Hv2. apply F; lia.
   - (* PopRecheck *)
     subst t. pose proof HC as (A & B & C & D & F & G). rewrite Epc in G.
-    destruct (pop_load_wp oq_ords_sync g (ls 1%nat) r) as [[g1 l1] e1] eqn:Eplw.
+    destruct (pop_load_wp oq_ords_sync _ g (ls 1%nat) r) as [[g1 l1] e1] eqn:Eplw.
     inversion Est; subst g' l' e'; clear Est.
-    destruct (pop_load_wp_inv g (ls 1%nat) (ls 0%nat) r g1 l1 e1 HG HP A B C D F G Eplw) as (X & Y & Z).
+    destruct (pop_load_wp_inv _ g (ls 1%nat) (ls 0%nat) r g1 l1 e1 HG HP A B C D F G Eplw) as (X & Y & Z).
     rewrite upd_l_same; rewrite upd_l_other by discriminate.
     split_inv; auto. apply others_kept; auto.
 Qed.
